@@ -30,10 +30,11 @@ def resultCodes : List (String × Nat) :=
   [("RESULT_ERROR", RESULT_ERROR), ("RESULT_EMPTY", RESULT_EMPTY), ("RESULT_STRING", RESULT_STRING),
    ("RESULT_HISTOGRAM", RESULT_HISTOGRAM), ("RESULT_CSTATE", RESULT_CSTATE)]
 
-/-- `CResult::free`: which restype releases what (checked against `Gen.freeArms`). -/
+/-- `CResult::free`: which restype releases what (checked against `Gen.freeArms`; canonical form: every code by
+name with the action of its first matching arm, then the catch-all). -/
 def freeArms : List (String × String) :=
-  [("RESULT_ERROR", "cstring"), ("RESULT_STRING", "cstring"), ("RESULT_HISTOGRAM", "histvec"),
-   ("RESULT_CSTATE", "u64vec"), ("RESULT_EMPTY", "nothing"), ("_", "nothing")]
+  [("RESULT_CSTATE", "u64vec"), ("RESULT_EMPTY", "nothing"), ("RESULT_ERROR", "cstring"),
+   ("RESULT_HISTOGRAM", "histvec"), ("RESULT_STRING", "cstring"), ("_", "nothing")]
 
 /-- `CResult` constructors (checked against `Gen.resultCtors`). -/
 def resultCtors : List (String × String × String × String × String) :=
